@@ -219,4 +219,8 @@ def Res.rebuild (r : Res) (rule : Rule) (now : Nat) (reuseStat : Bool) : Res :=
              (p.1, { state := .closed, nextRetry := 0, curProbe := 0,
                      stat := if reuseStat then p.2.stat else LA.mk rule.cb.n rule.cb.L now }) }
 
+/-- `LoadRuleOfResource(res, nil)` / `ClearRuleOfResource`: the resource's rule and all its node breakers are
+    dropped; the cached recycler (and its status map) stays. -/
+def Res.clear (r : Res) : Res := { r with nodes := [] }
+
 end Sentinel.Outlier
